@@ -3,7 +3,8 @@
 //! or the `bash` tool) whose shell returns at once and LEAVES A CHILD BEHIND; the child waits on a FIFO the
 //! harness holds, then writes the workspace (`late_<actor>.txt`, a sequence line in the marker file).
 //!
-//! n % 3 = site (0 pipes task, 1 pty task, 2 bash tool); (n / 3) % 6 = what the child does with the streams it
+//! n % 4 = site (0 pipes task, 1 pty task, 2 bash tool, 3 bash tool called with `timeout_ms`: the call is
+//! abandoned while the child is pending); (n / 4) % 6 = what the child does with the streams it
 //! inherited from the execution (pipes: stdout + stderr; pty: the slave side on stdin/stdout/stderr):
 //!   0 keeps them                      1 closes stdout only              2 double-forked (own session when
 //!   3 closes all of them (detached)   4 double-forked + closes all         `setsid` exists), keeps them
@@ -17,25 +18,27 @@
 pub const SITE_PIPES: u32 = 0;
 pub const SITE_PTY: u32 = 1;
 pub const SITE_TOOL: u32 = 2;
+pub const SITE_TOOL_TIMEOUT: u32 = 3;
+pub const SITES: u32 = 4;
 pub const SHAPES: u32 = 6;
 
 pub fn site(n: u32) -> u32 {
-    n % 3
+    n % SITES
 }
 pub fn shape(n: u32) -> u32 {
-    (n / 3) % SHAPES
+    (n / SITES) % SHAPES
 }
 pub fn make(site: u32, shape: u32) -> u32 {
-    shape * 3 + site
+    shape * SITES + site
 }
 pub fn is_task(n: u32) -> bool {
-    site(n) != SITE_TOOL
+    site(n) <= SITE_PTY
 }
 pub fn attached(n: u32) -> bool {
     !matches!(shape(n), 3 | 4)
 }
 pub fn tag(n: u32) -> String {
-    let s = ["pipes-task", "pty-task", "bash-tool"][site(n) as usize];
+    let s = ["pipes-task", "pty-task", "bash-tool", "bash-tool-timeout"][site(n) as usize];
     let h = ["keeps-pipes", "closes-stdout", "double-fork-keeps-pipes", "closes-all", "double-fork-closes-all", "closes-stderr"][shape(n) as usize];
     format!("{s}/{h}")
 }
